@@ -38,8 +38,7 @@ theorem inv_after_detection {cfg : Cfg} {st0 : Stream} (hst : ∀ d, cfg.streamO
     intro k hk e he _ hi; rw [he] at hi; exact absurd hi hk
   have hstale : ∀ e ∈ s.inflight, e.ino = i0 → e.seq ≤ j.lastSeq := by
     intro e he hi
-    have := hseq.infl e he
-    rw [hi, ← hseq.last i0 j hj] at this; exact this
+    exact hseq.infl e he j (by rw [hi]; exact hj)
   have hfiles : ∀ k, k ≠ i0 → (afterDetection (truncated s i0 f) i0 j).files k = s.files k := by
     intro k hk; simp [afterDetection, truncated, upd_other _ _ hk]
   refine ⟨⟨?_, ?_, ?_⟩, ?_, ?_, ?_, ?_, ?_, ?_, ?_, ?_⟩
@@ -104,9 +103,9 @@ theorem inv_after_detection {cfg : Cfg} {st0 : Stream} (hst : ∀ d, cfg.streamO
   · intro k off data hk
     have hk' : k = i0 := hk
     subst hk'
-    have : s.seqs k (cfg.streamOf data) = j.lastSeq := by rw [hst, hseq.last k j hj]
+    have : j.lastSeq ≤ s.seqs k (cfg.streamOf data) := by rw [hst]; exact hseq.le k j hj
     show j.lastSeq < (afterDetection (truncated s k f) k j).seqs k (cfg.streamOf data) + 1
-    simp [afterDetection, truncated, this]
+    simp [afterDetection, truncated]; omega
   · intro k hk; subst hk; simp [afterDetection]
 
 end FileD.FileRestart
